@@ -223,19 +223,24 @@ SolveImpl(M, q) ==
 (* a returned table of combinations T (T[j] = set of 1-based equation indices) solves every consistent system with matrix M *)
 IsLeftInverse(M, q, T) == \A j \in 1 .. q : CombineSeq(M, T[j]) = {j - 1}
 
-AllSystems == UNION { { [p |-> p, q |-> q, M |-> M] : M \in [1 .. p -> SUBSET (0 .. (q - 1))] } : p \in 1 .. MaxP, q \in 1 .. MaxP }
-SolveInit == S = S0 /\ pt \in { s \in AllSystems : s.q <= s.p }
-SolveNext == UNCHANGED <<S, pt>>
+(* all p x q systems, q <= p <= MaxP, built row by row (so that TLC spreads them over its workers) *)
+SolveInit == S = S0 /\ pt \in { [p |-> p, q |-> q, M |-> <<>>] : p \in 1 .. MaxP, q \in 1 .. MaxP } /\ pt.q <= pt.p
+SolveNext == /\ Len(pt.M) < pt.p
+             /\ \E row \in SUBSET (0 .. (pt.q - 1)) : pt' = [pt EXCEPT !.M = Append(@, row)]
+             /\ UNCHANGED S
+Complete == Len(pt.M) = pt.p
 
 (* success iff full column rank; on success the combinations are a left inverse, hence give THE solution *)
 SolverLemmas ==
-    LET r == SolveImpl(pt.M, pt.q)
-    IN  /\ r.ok <=> FullColRank(pt.M, pt.q)
-        /\ r.ok => IsLeftInverse(pt.M, pt.q, r.T)
+    Complete =>
+        LET r == SolveImpl(pt.M, pt.q)
+        IN  /\ r.ok <=> FullColRank(pt.M, pt.q)
+            /\ r.ok => IsLeftInverse(pt.M, pt.q, r.T)
 (* with the consistent right-hand side rhs = M x0 for x0[j] = {j}, Solution returns x0 exactly when the rank is full *)
 SolutionLemma ==
-    LET sol == Solution(pt.M, pt.M, pt.q)
-    IN  /\ sol.consistent
-        /\ sol.full <=> FullColRank(pt.M, pt.q)
-        /\ sol.full => sol.x = [j \in 1 .. pt.q |-> {j - 1}]
+    Complete =>
+        LET sol == Solution(pt.M, pt.M, pt.q)
+        IN  /\ sol.consistent
+            /\ sol.full <=> FullColRank(pt.M, pt.q)
+            /\ sol.full => sol.x = [j \in 1 .. pt.q |-> {j - 1}]
 =============================================================================
